@@ -112,7 +112,7 @@ static int w_enabled(mc_op_t o)
     int a = OA(o), s = OB(o);
     switch (OC(o)) {
     case O_ALLOC: return !sole_ext(a) && (nB < MAXBUF);
-    case O_SET: return !sole_ext(a) && !ext_in_use(OB(o)) && nB < MAXBUF;
+    case O_SET: return !sole_ext(a) && nB < MAXBUF;      /* an external buffer may be described twice (two set calls on two objects): seed C14-7f */
     case O_SLICE:
         if (a != s && sole_ext(s)) return 0;
         if (OD(o) == V_LEN_M1 || OE(o) == V_LEN_M1) { if (O[a].len == 0) return 0; }
